@@ -28,6 +28,17 @@ PARTIAL = ['oms_partition is stated on the chain abstraction: the walk over the 
            'systems (ROADM, line elements, ROADM) is not modelled; "each line element belongs to exactly one OMS" follows '
            'from the theorem when each line element lies in exactly one line system, which the monitor checks on the '
            'real network object for every generated network (partition, adjacency along the route, back references)']
+MANIFEST = {
+    'text': '21 Lean 4 theorems over the executable model: bitmap_length and usable_iff_in_common_band for EVERY band layout '
+            'inside the network range (+ inBands_iff_frequency: index view = centre-frequency view for every band edge, '
+            'common_band_is_intersection), align_index_unique and align_preserves_occupancy for every set of maps, '
+            'oms_partition/same index range and reversed_endpoints/reversed_involution on the chain abstraction, '
+            'slots_roundtrip; the negations for the code before ec64bb7b / 5edacf9c are decided on faithful old models '
+            '(bitmap_length_fails_old, insert_right_dup_old).',
+    'note': 'Partial: the DiGraph walk of build_oms_list is not modelled (chain abstraction); the partition of the real '
+            'network object is checked by the monitor on every generated network. Thorough tier adds the complete '
+            'enumeration of all 1- and 2-band layouts on a 12-slot line (on- and off-grid edges) and of all pairs of map '
+            'extents in n = -3..3 through align_grids (7128 cases).'}
 RULE = ('one PRNG; (a) 40 %: generated networks of 2-4 (thorough: up to 6) ROADMs, line or ring, every OMS with its own '
         'amplifier profile from the multiband library (C, C medium, L, reduced C band, three C+L multiband models), user '
         'amplifier models with explicit band edges (12 % of them off the 6.25 GHz grid), mixed models inside one OMS, '
